@@ -38,6 +38,10 @@ TOKENS = [
     "'", '"', "$", "^", "|", "\\", "`", "{}", "~", "<", ">", "-", "  * ", "    - ", "      + ", "k::", "::v", "[k:: v]",
     "[k::", "* k::", "240101", "2024-01-01", "1230", "*", "&", "=", "?", "_", "(", ")", ".", "/", ":", ";", "!", ",",
     "################################", "========================", "++++++++++++++++", "--------",
+    # calendar edges: lexically fine, may or may not exist
+    "230229", "240229", "2023-02-29", "2024-02-29", "210229#AG", "240229#00", "240230", "240431", "2024-04-31", "241301", "240001", "2100-02-29", "000229", "000229#00",
+    # property shapes
+    "[k::a::b]", "[k:: a::b]", "k::a::b", "[k::]", "[::v]", "[k:: ]", "a::b::c", "k::http://x.y", "[k::http://x.y/z]", "k::[[a]]", "[[a::b]]",
 ]  # fmt: skip
 
 DAMAGE_KINDS = [
@@ -152,6 +156,19 @@ def gen_case(rng: random.Random, tier: str) -> dict:
             steps.append({"op": "create", "force": True})
         else:
             steps.append({"op": "day", "days": rng.choice([1, 30])})
+    if rng.random() < 0.3:
+        # whitelist life cycle: a page breaks (but keeps recoverable notes), is force-indexed,
+        # gets repaired, and must leave the whitelist again
+        pg = rng.randrange(1000)
+        cycle = [
+            {"op": "break_tail", "page": pg, "text": rng.choice(["stray words without prefix", "O capital", "-no space", " leading space"])},
+            {"op": "create", "force": True},
+            rng.choice([{"op": "reindex"}, {"op": "touch", "page": pg + 1, "word": "cycle"}, {"op": "day", "days": 1}]),
+            {"op": "repair", "page": pg},
+            rng.choice([{"op": "reindex"}, {"op": "reindex"}, {"op": "create"}, {"op": "reindex", "paths": {"pick": [pg]}}]),
+        ]
+        at = rng.randrange(len(steps) + 1)
+        steps[at:at] = cycle
     steps.append(rng.choice([{"op": "reindex"}, {"op": "create"}, {"op": "create", "force": True}]))
     return {"world": world, "variants": variants, "steps": steps, "day0": core.EPOCH_DAY + rng.randrange(0, 300)}
 
@@ -321,6 +338,19 @@ def execute(case: dict, scratch: str) -> dict:
                 f.write(v["data"].encode("latin-1"))
             rec.note("damage", page=p, kinds=v["kinds"])
             rec.probe("fault:page-damage")
+            continue
+        if op == "break_tail":
+            if not pages:
+                continue
+            p = pages[st["page"] % len(pages)]
+            full = os.path.join(sim.zdir, p)
+            with core._real_open(full, "rb") as f:
+                data = f.read()
+            if data.endswith(b"\n") and _items_reachable(data) > 0:
+                with core._real_open(full, "ab") as f:
+                    f.write(st["text"].encode() + b"\n")
+                rec.probe("fault:page-damage")
+                rec.probe("page-broken-but-notes-recoverable")
             continue
         if op == "touch":
             if not pages:
